@@ -331,6 +331,24 @@ func c14Traffic(t *testing.T, rep *vh.Report, quick bool) {
 			m.Periods[0].BaseURLs[0] != "bu0/" || m.Periods[0].BaseURLs[1] != "bu1/" {
 			rep.Violate("C14.baseurl", "baseurls", fmt.Sprintf("%s: MPD does not offer exactly BaseURL bu0/ and bu1/ (status %d)", murl, mr.Code), map[string]any{"url": murl})
 		}
+		// ... in every Period and for every MPD type when the MPD is split into periods
+		for _, extra := range [][]string{{"periods_60"}, {"periods_60", "continuous_1"}, {"periods_60", "segtimeline_1"}, {"segtimeline_1"}, {"segtimelinenr_1", "periods_30"}} {
+			xurl := fmt.Sprintf("%s/testpic_2s/Manifest.mpd?nowMS=%d", vCfgPrefix(append(append([]string{}, cfgp...), extra...)...), base*1000)
+			xr := vGet(srv, xurl)
+			rep.AddExecs(1)
+			rep.Hit("C14.baseurl")
+			m, err := vref.ParseMPD(xr.Body)
+			if xr.Code != 200 || err != nil || len(m.Periods) == 0 {
+				rep.Violate("C14.baseurl", "baseurls:mpd-status:"+strings.Join(extra, "+"), fmt.Sprintf("%s: status %d %v", xurl, xr.Code, err), map[string]any{"url": xurl})
+				continue
+			}
+			for _, pd := range m.Periods {
+				if len(pd.BaseURLs) != 2 || pd.BaseURLs[0] != "bu0/" || pd.BaseURLs[1] != "bu1/" {
+					rep.Violate("C14.baseurl", "baseurls:"+strings.Join(extra, "+"), fmt.Sprintf("%s: Period %s offers BaseURLs %v, want [bu0/ bu1/]", xurl, pd.ID, pd.BaseURLs), map[string]any{"url": xurl})
+					break
+				}
+			}
+		}
 		cyc := 0
 		for _, i := range p {
 			cyc += i.dur
